@@ -75,6 +75,8 @@ struct Plan {
     /// the shards the writes map to are in the dual-write phase of a split: writes take
     /// Ingester::write_with_split_awareness
     dual_write: bool,
+    /// (from, count): a burst of lost compare-and-swap races on catalog.json (object-store backend)
+    contention: Option<(u64, u64)>,
 }
 
 fn gen_plan(rng: &mut Rng, idx: u64, thorough_fault: Option<(u64, FaultMode)>) -> Plan {
@@ -125,7 +127,9 @@ fn gen_plan(rng: &mut Rng, idx: u64, thorough_fault: Option<(u64, FaultMode)>) -
     let local_backend = rng.chance(1, 4);
     let flush_rows = 3 + rng.usize(6);
     let dual_write = rng.chance(1, 4);
-    Plan { local_backend, writers, flush_rows, faults, strategy, dual_write }
+    // 5 lost races in a row exhaust register_chunk's retry budget (Error::TooManyRetries reaches the flush)
+    let contention = if rng.chance(1, 4) { Some((rng.below(3), *rng.pick(&[2u64, 5, 5, 6, 11]))) } else { None };
+    Plan { local_backend, writers, flush_rows, faults, strategy, dual_write, contention }
 }
 
 fn snapshot_wal(wal_dir: &str, root: &str, n: &mut u64) -> String {
@@ -373,6 +377,7 @@ fn one_execution(ctx: &Ctx, out: &mut Outcome, plan: Plan, mut rng: Rng, idx: u6
         let ing = Arc::new(ing);
         ctl.reset_counters();
         ctl.set_faults(plan2.faults.clone());
+        ctl.set_contention(plan2.contention.map(|(from, count)| sim::Contention { path_contains: "catalog.json".into(), from, count }));
         ctl.set_gating(true);
         let mut writers = vec![];
         for (w, batches) in plan2.writers.iter().cloned().enumerate() {
@@ -434,6 +439,7 @@ fn one_execution(ctx: &Ctx, out: &mut Outcome, plan: Plan, mut rng: Rng, idx: u6
             }
         }
         ctl.set_gating(false);
+        ctl.set_contention(None);
         // end state (no crash): also an image
         let d = snapshot_wal(&wal_dir2, &exec_root2, &mut counter);
         images.push(Image {
@@ -466,6 +472,11 @@ fn one_execution(ctx: &Ctx, out: &mut Outcome, plan: Plan, mut rng: Rng, idx: u6
         out.count("executions_in_dual_write_phase", 1);
         out.count("dual_write_copies_uploaded", events_brief.iter().filter(|e| e["op"] == "PUT" && e["phase"] == "return" && e["path"].as_str().map(|p| p.contains("shard=new-")).unwrap_or(false)).count() as u64);
     }
+    out.count("lost_cas_races_injected", events_brief.iter().filter(|e| e["actor"] == "contender").count() as u64);
+    out.count("writes_refused_with_retry_exhaustion", events_brief.iter().filter(|e| e["result"].as_str().map(|s| s.to_lowercase().contains("retries")).unwrap_or(false)).count() as u64);
+    if plan.contention.map(|(_, c)| c >= 5).unwrap_or(false) && !plan.local_backend {
+        out.count("executions_with_a_retry_exhausting_burst", 1);
+    }
     out.count("store_and_catalog_requests", nreq);
     out.count("injected_faults_planned", plan.faults.len() as u64);
     let injected = events_brief.iter().filter(|e| e["result"].as_str().map(|s| s.starts_with("injected")).unwrap_or(false)).count() as u64;
@@ -490,6 +501,7 @@ fn one_execution(ctx: &Ctx, out: &mut Outcome, plan: Plan, mut rng: Rng, idx: u6
         "backend": if plan.local_backend { "local" } else { "object-store" },
         "flush_row_count": plan.flush_rows,
         "dual_write": plan.dual_write,
+        "lost_cas_races_on_catalog": plan.contention.map(|(f, c)| format!("conditional PUTs #{}..#{}", f, f + c)),
         "writers": plan.writers.iter().map(|w| w.iter().map(|(k, r, t)| format!("{:?} ids {:?} after {}ms", k, r.iter().map(|x| x.id).collect::<Vec<_>>(), t)).collect::<Vec<_>>()).collect::<Vec<_>>(),
         "faults": plan.faults.iter().map(|f| format!("request #{} {:?}", f.index, f.mode)).collect::<Vec<_>>(),
     });
